@@ -132,17 +132,33 @@ def families(tier, seed):
         for name in inputs_for(F, seed, tier):
             cases.append({"kind": kind, "sys": sysname, "m": m, "input": name})
     fams = [("dykstra", cases)]
+    # the same runs on a composite system whose cached tables were built, then ONE of them dropped (it is rebuilt lazily by the run)
+    hist = []
+    seen = set()
+    for c in cases:
+        key = (c["kind"], c["sys"], c["m"])
+        if key in seen or c["input"].startswith("phys:") or (tier == "quick" and c["sys"] not in ("Q1", "Q3")):
+            continue
+        seen.add(key)
+        for d in DELETERS:
+            hist.append(dict(c, history=d))
+    fams.append(("dykstra_after_cache_delete", hist))
     if tier == "thorough":
         sel = [c for c in cases if c["sys"] in ("Q1", "Q3") and not c["input"].startswith("phys:")]
         fams.append(("clarabel", sel))
     return fams
 
 
+DELETERS = ("delete_dict_from_hs_to_choi", "delete_dict_from_choi_to_hs", "delete_basis_T_sparse", "delete_basisconjugate_sparse",
+            "delete_basisconjugate_basis_sparse", "delete_basis_basisconjugate_T_sparse", "delete_basis_basisconjugate_T_sparse_from_1",
+            "delete_basishermitian_basis_T_from_1")
+
+
 def guards(summary):
     g = []
     info = summary["info"]
     for k in ("steps_checked", "multi_sweep_runs", "already_physical_inputs", "clipped_runs", "order_pairs", "var_level_runs",
-              "closure_runs", "maxiter_said_so"):
+              "closure_runs", "maxiter_said_so", "runs_after_cache_delete"):
         if info.get(k, 0) < 1:
             g.append("never seen: " + k)
     return g
@@ -258,6 +274,15 @@ def execute(family, p, seed):
     is_phys = F.eq_defect(x0) < 1e-12 and F.min_eig(x0) > -1e-12
     if is_phys:
         out.count("already_physical_inputs")
+    if p.get("history"):
+        warm = F.make(x0)
+        A.call(warm.calc_proj_ineq_constraint)
+        A.call(warm.calc_proj_eq_constraint)
+        A.call(lambda: warm.to_choi_matrix_with_dict() if hasattr(warm, "to_choi_matrix_with_dict") else None)
+        okd, rd = A.call(getattr(F.c_sys, p["history"]))
+        if not okd:
+            out.fail("composite_system.%s:raises" % p["history"], A.fmt_exc(rd))
+        out.count("runs_after_cache_delete")
     digs = []
     results = {}
     for eps in EPSS:
